@@ -417,17 +417,16 @@ def conv_from(I, st, depth, callee, args, body, ln):
 
 
 def conv_into(I, st, depth, callee, args, body, ln):
-    """<T as Into<U>>::into  ==  <U as From<T>>::from"""
+    """<T as Into<U>>::into  ==  <U as From<T>>::from (resolved by the driver)"""
     ga = callee.get("ga", [])
+    tgt = callee.get("into_from")
+    if tgt is not None and tgt in I.p.bodies:
+        return I.call_fn(st, depth, {"def": tgt, "res": tgt, "local": True, "ik": "Item"},
+                         args, body, ln)
     if len(ga) >= 2:
         t, u = ga[0], ga[1]
         if t == u:
             return args[0]
-        path = "<%s as core::convert::From<%s>>::from" % (u, t)
-        target = I.p.bodies.get(path)
-        if target is not None:
-            return I.call_fn(st, depth, {"def": path, "res": path, "local": True, "ik": "Item"},
-                             args, body, ln)
         return conv_from(I, st, depth, {"ga": [u, t], "defargs": callee.get("defargs")}, args, body, ln)
     return TOP
 
@@ -458,9 +457,21 @@ def clone_prim(I, st, depth, callee, args, body, ln):
 
 def eq_prim(op):
     def m(I, st, depth, callee, args, body, ln):
+        ga = callee.get("ga", [])
+        if op == "Ne" and ga:
+            # default method PartialEq::ne = !eq: follow a local eq impl
+            cands = ["<%s as core::cmp::PartialEq>::eq" % ga[0]]
+            if len(ga) > 1:
+                cands.append("<%s as core::cmp::PartialEq<%s>>::eq" % (ga[0], ga[1]))
+            for path in cands:
+                if path in I.p.bodies:
+                    r = I.call_fn(st, depth, {"def": path, "res": path, "local": True, "ik": "Item"},
+                                  args, body, ln)
+                    if is_scalar(r):
+                        return D.unop("Not", r, "bool")
+                    return BOOL
         a = deref(I, st, args[0])
         b = deref(I, st, args[1])
-        ga = callee.get("ga", [])
         if isinstance(a, Ref) or isinstance(b, Ref):
             a = deref(I, st, a) if isinstance(a, Ref) else a
             b = deref(I, st, b) if isinstance(b, Ref) else b
@@ -471,8 +482,27 @@ def eq_prim(op):
         if isinstance(a, Str) and isinstance(b, Str):
             r = a.s == b.s
             return int(r if op == "Eq" else not r)
+        if isinstance(a, En) and isinstance(b, En):
+            # payload-free enums compare by variant
+            if all(not f for f in a.vs.values()) and all(not f for f in b.vs.values()):
+                sa, sb = set(a.vs), set(b.vs)
+                out = set()
+                if sa & sb:
+                    out.add(1)
+                if len(sa | sb) > 1:
+                    out.add(0)
+                r = D.norm_set(frozenset(out))
+                return r if op == "Eq" else D.unop("Not", r, "bool")
         return BOOL
     return m
+
+
+def discriminant_value(I, st, depth, callee, args, body, ln):
+    v = deref(I, st, args[0])
+    ga = callee.get("ga", [])
+    if isinstance(v, En) and ga:
+        return I.discr_values(v, ga[0])
+    return TOP
 
 
 def ignore_unit(I, st, depth, callee, args, body, ln):
@@ -544,6 +574,7 @@ TABLE = {
     "core::str::slice_error_fail": _panic("str_slice"),
     "std::process::exit": _panic("exit"),
         "core::intrinsics::cold_path": ignore_unit,
+    "core::intrinsics::discriminant_value": discriminant_value,
 }
 
 for _ty in ("u8", "u16", "u32", "u64", "usize", "i8", "i16", "i32", "i64", "isize"):
